@@ -374,6 +374,10 @@ type End struct {
 	// OmitGrpcMessage: with details, the (optional) Grpc-Message header is left out; the message is in the
 	// google.rpc.Status of Grpc-Status-Details-Bin only
 	OmitGrpcMessage bool
+	// RawGrpcMessage: Grpc-Message is written as it is, without percent-encoding. For a message with a
+	// '%' that does not start an escape, the gRPC document obliges readers NOT to fail or throw the
+	// status away ("at worst ... the raw percent-encoded form").
+	RawGrpcMessage bool
 	DetailsCode    int32
 	// PadBase64: error details (Connect "value", grpc-status-details-bin) are written as padded base64.
 	PadBase64 bool
@@ -1049,7 +1053,11 @@ func grpcStatusHeaders(e *End, into http.Header) {
 		into.Set("Grpc-Status", strconv.Itoa(e.Code))
 	}
 	if e.Message != "" && !(e.OmitGrpcMessage && len(e.Details) > 0) {
-		into.Set("Grpc-Message", GRPCPercentEncode(e.Message))
+		if e.RawGrpcMessage {
+			into.Set("Grpc-Message", e.Message) // (a peer that does not percent-encode)
+		} else {
+			into.Set("Grpc-Message", GRPCPercentEncode(e.Message))
+		}
 	}
 	if len(e.Details) > 0 {
 		st := StatusProto(e)
